@@ -4,20 +4,27 @@ from vlib import sx
 
 
 def real_line(doc):
+    import traceback
     try:
         return pm.run_real(doc)
-    except AssertionError:
-        return 'err:pagination'
     except Exception as exc:  # noqa: BLE001
-        return f'err:{type(exc).__name__}'
+        frames = [f for f in traceback.extract_tb(exc.__traceback__) if '/weasyprint/' in f.filename]
+        where = f'{frames[-1].filename.split("/")[-1]}:{frames[-1].name}' if frames else 'harness'
+        if isinstance(exc, AssertionError) and where == 'page.py:make_page':
+            return 'err:pagination'
+        return f'err:{type(exc).__name__}@{where}'
 
 
-def add_cases(run, sec, count, gen=None):
+def add_cases(run, sec, count, gen=None, skip_errors=True):
+    """`skip_errors`: an exception of the implementation is C02's business; C01/C03/C04 only count it."""
     docs.quiet()
     gen = gen or pm.gen_doc
     for _ in range(count):
         doc = gen(run.rng)
         out = real_line(doc)
+        if skip_errors and out.startswith('err:') and out != 'err:pagination':
+            sec.tags['implementation raised (left to C02)'] += 1
+            continue
         pages = out.count('(page ')
         tags = pm.features(doc) + [f'pages{min(pages, 10)}']
         sec.add(pm.doc_line(doc), out, meta={'doc': doc_json(doc)}, nontrivial=pages >= 2, tags=tags)
